@@ -312,6 +312,10 @@ def enumerate_oddities() -> Dict:
             ins, outs = data["input_vars"], data["output_vars"]
             if ins:
                 variants.append(("dup_input", {"input_vars": ins + [ins[0]]}))
+            if len(ins) >= 2:
+                variants.append(("dup_two_inputs", {"input_vars": ins + ins[:2]}))
+            if len(outs) >= 2:
+                variants.append(("dup_two_outputs", {"output_vars": outs + outs[:2][::-1]}))
             if outs:
                 variants.append(("dup_output", {"output_vars": outs + [outs[0]]}))
                 variants.append(("in_and_out", {"input_vars": ins + [outs[0]]}))
